@@ -906,8 +906,14 @@ func (c *Client) q(m *spb.ModifyRequest) {
 	c.awaiting.RLock()
 	defer c.awaiting.RUnlock()
 
-	if !chIsClosed(c.sendExitCh) {
-		c.qs.modifyCh <- m
+	if chIsClosed(c.sendExitCh) {
+		return
+	}
+	select {
+	case c.qs.modifyCh <- m:
+	case <-c.sendExitCh:
+		// The sender exited after we checked but before it could take this
+		// message; nothing will ever read modifyCh, so do not wait for it.
 	}
 }
 
